@@ -6,16 +6,22 @@ import (
 	"strconv"
 )
 
+// the bound the statement allows on top of the configured length ("never unboundedly more"):
+// the documented trimming granularity of 100 lines. It is the harness's own constant - the
+// implementation's way of getting there is not referenced.
+const verifSlack = 100
+
 // C18 (one step of the buffer from boundary states): after one Write the buffer holds the most
-// recent lines in order, at least min(written, size) of them, never more than size+slack.
+// recent lines in order, at least min(written, size) of them, never more than size+100.
 func VerifC18_Write() {
-	verifUnwind(256) // the harness itself loops over size+slack lines
+	verifUnwind(256) // the harness itself loops over size+100 lines
 	size := verifIntRange("size", 0, 3)
-	// pre-state: n lines already held, n chosen around the trimming boundary size+slack
+	// pre-state: n lines already held, n chosen around the trimming boundary size+100
 	sz := verifConcretize(size)
-	ns := []int{0, 1, sz, sz + slack - 1, sz + slack}
+	ns := []int{0, 1, sz, sz + verifSlack - 1, sz + verifSlack}
 	n := ns[verifChoose(len(ns))]
-	b := &ProcessLogBuffer{size: size, buffer: make([]string, 0, sz+slack), observers: map[string]LogObserver{}}
+	b := NewLogBuffer(sz) // REAL constructor
+	b.size = size         // (the same value, kept symbolic for the branch conditions of Write)
 	for i := 0; i < n; i++ {
 		b.buffer = append(b.buffer, "m"+strconv.Itoa(i))
 	}
@@ -23,7 +29,7 @@ func VerifC18_Write() {
 	b.Write("new") // REAL code
 	got := b.buffer
 	verifObserveInt("len.after", len(got))
-	verifAssert("bounded", len(got) <= sz+slack)
+	verifAssert("bounded", len(got) <= sz+verifSlack)
 	verifAssert("holds.at.least.size", len(got) >= sz || len(got) == n+1)
 	verifAssert("last.is.newest", len(got) >= 1 && got[len(got)-1] == "new")
 	// the rest is a suffix of the previous content, in order
